@@ -17,9 +17,9 @@ import (
 func init() {
 	core.Register(&core.Part{
 		Name: "C18.generate", Prop: "C18",
-		Cases: func(tier string) int { return tierN(tier, 16, 64) },
-		Run:   runC18Generate,
-		Rule: "GenerateShards(base, n): quick = every n in 1..4096 (sliced over the cases) + seeded n up to 2^18; thorough = every n in 1..16384 + seeded n up to 2^22; oracle: ranges sorted by min start at 0, end at 2^32-1, each next.min == prev.max+1, ids base..base+n-1; non-trivial = n >= 2; distinct = n",
+		Cases:            func(tier string) int { return tierN(tier, 16, 64) },
+		Run:              runC18Generate,
+		Rule:             "GenerateShards(base, n): quick = every n in 1..4096 (sliced over the cases) + seeded n up to 2^18; thorough = every n in 1..16384 + seeded n up to 2^22; oracle: ranges sorted by min start at 0, end at 2^32-1, each next.min == prev.max+1, ids base..base+n-1; non-trivial = n >= 2; distinct = n",
 		MinNontrivial:    func(tier string) int { return tierN(tier, 16, 64) },
 		RequiredCounters: []string{"shard_counts_checked"},
 	})
